@@ -160,12 +160,57 @@ func GenTrap(seed, run uint64, tier string) *plan.Plan {
 		case KCtxStr:
 			st.S = GenParseString(r)
 		}
+		if (st.Op == "Sqrt" || st.Op == "Cbrt") && r.Chance(1, 4) {
+			// exact roots reach the exactness tests at the end of the root functions
+			k := 2
+			if st.Op == "Cbrt" {
+				k = 3
+			}
+			tk.Steps = append(tk.Steps, plan.Step{Op: "CtxSetString", Ctx: len(p.Contexts) - 1, D: st.D, S: ExactPowerText(r, k), Traps: new(uint32)})
+			st.X = st.D
+		}
+		// a quarter of the pairs are executed in place (destination = an operand):
+		// the trap rules must hold for aliased calls too
+		if r.Chance(1, 4) {
+			switch def.Kind {
+			case KCtx3:
+				if r.Bool() {
+					st.X = st.D
+				} else {
+					st.Y = st.D
+				}
+			case KCtx2, KCtxQ:
+				st.X = st.D
+			}
+		}
 		t := genTrapSet(r)
 		st.Traps = &t
 		tk.Steps = append(tk.Steps, st)
 	}
 	p.Tasks = []plan.Task{tk}
 	return p
+}
+
+// roomFor executes def on fresh objects: all distinct (the clean-room call) if
+// the step's destination is not one of its operands, otherwise with the same
+// storage sharing as the step (the destination *is* that operand).
+func roomFor(def *OpDef, a *Args) (Outcome, *Args) {
+	if a.D == nil || (a.D != a.X && a.D != a.Y) {
+		return cleanRoom(def, a)
+	}
+	cr := &Args{C: a.C, N: a.N, S: a.S}
+	cr.X = cloneDec(a.X)
+	if a.Y == a.X {
+		cr.Y = cr.X
+	} else {
+		cr.Y = cloneDec(a.Y)
+	}
+	if a.D == a.X {
+		cr.D = cr.X
+	} else {
+		cr.D = cr.Y
+	}
+	return Exec(def, cr), cr
 }
 
 func withTraps(c *apd.Context, t apd.Condition) *apd.Context {
@@ -216,7 +261,7 @@ func RunTrap(p *plan.Plan) *plan.Result {
 		ref := a
 		ref.C = withTraps(base, 0)
 		beginOp(soloOpCap)
-		out0, cr0 := cleanRoom(def, &ref)
+		out0, cr0 := roomFor(def, &ref)
 		n0 := opSteps()
 		if out0.Hang {
 			st["skipped_budget"]++
@@ -226,7 +271,7 @@ func RunTrap(p *plan.Plan) *plan.Result {
 		flt := a
 		flt.C = withTraps(base, T)
 		beginOp(20*n0 + 2_000_000)
-		outT, _ := cleanRoom(def, &flt)
+		outT, _ := roomFor(def, &flt)
 		nT := opSteps()
 		st["steps"] += n0 + nT
 		st["ops"]++
